@@ -121,6 +121,26 @@ fn max_level_child(job: &[u8]) -> Vec<u8> {
     serde_json::to_vec(&out).unwrap()
 }
 
+/// fresh process: tracing-subscriber's `LevelFilter` used as a subscriber (kind 0) or as a
+/// per-subscriber filter (kind 1) on a Registry; returns LevelFilter::current() readings
+fn max_level_subscriber_child(job: &[u8]) -> Vec<u8> {
+    use tracing_subscriber::prelude::*;
+    let (kind, h) = (job[0], job[1] as usize);
+    let f: tracing_subscriber::filter::LevelFilter = FILTERS[h].0;
+    let rank = |f: LevelFilter| FILTERS.iter().find(|x| x.0 == f).unwrap().1;
+    let mut out: Vec<u8> = vec![rank(LevelFilter::current())];
+    let d = if kind == 0 {
+        tracing_core::Dispatch::new(tracing_subscriber::registry().with(f))
+    } else {
+        tracing_core::Dispatch::new(tracing_subscriber::registry().with(tracing_subscriber::subscribe::Identity::new().with_filter(f)))
+    };
+    out.push(rank(LevelFilter::current()));
+    drop(d);
+    tracing_core::callsite::rebuild_interest_cache();
+    out.push(rank(LevelFilter::current()));
+    serde_json::to_vec(&out).unwrap()
+}
+
 pub fn run(args: &Args) -> i32 {
     // --replay: the whole space is enumerated in well under a second, so a replay is a re-run
     let mut rep = Report::new(args, "exploration");
@@ -367,6 +387,22 @@ pub fn run(args: &Args) -> i32 {
                             None => vec![0, eff(h1), 0],
                             Some(h2) => vec![0, eff(h1), eff(h1).max(eff(h2)), eff(h1), 0],
                         };
+                        cx.check(case, got == want, || format!("LevelFilter::current() readings {:?}, expected {:?}", got, want));
+                    }
+                    o => {
+                        cx.check(case, false, || format!("child failed: {:?}", o));
+                    }
+                }
+            }
+        }
+        // the same through tracing-subscriber's re-exported LevelFilter as a subscriber / filter
+        for kind in [0u8, 1] {
+            for h in 0..6u8 {
+                let case = format!("MAX_LEVEL registry().with({}) filter #{}", if kind == 0 { "LevelFilter" } else { "Identity.with_filter(LevelFilter)" }, h);
+                match run_isolated(max_level_subscriber_child, &[kind, h], Duration::from_secs(20)) {
+                    Outcome::Ok(b) => {
+                        let got: Vec<u8> = serde_json::from_slice(&b).unwrap();
+                        let want = vec![0, FILTERS[h as usize].1, 0];
                         cx.check(case, got == want, || format!("LevelFilter::current() readings {:?}, expected {:?}", got, want));
                     }
                     o => {
